@@ -81,14 +81,23 @@ def build(chk):
         consts = [()] + [(l,) for l in labels[:2]] + ([tuple(labels[:2])] if d >= 3 else [])
         if chk.tier == 'thorough':
             consts = [c for r in range(0, d) for c in itertools.combinations(labels, r)]
-        for const in consts:
-            tag = 'd%d.const_%s' % (d, ''.join(const) or 'none')
+        for const in consts + (['partial_dict'] if d == 3 else []):
+            partial = const == 'partial_dict'
+            if partial:
+                const = ()
+            tag = 'd%d.const_%s%s' % (d, ''.join(const) or 'none', '.partial_dict' if partial else '')
             I = engine.new_interp()
             gm.install_rootfinders(I)
             G = I.resolve(uni.CLASSES['GaussianUnivariate'][0])
             Bc = I.resolve(uni.CLASSES['UniformUnivariate'][0])
             # every column configured explicitly (an unnamed column would go through the selecting Univariate: C05)
             dist = {l: (G if i % 2 == 0 else Bc) for i, l in enumerate(labels)} if d >= 3 else G
+            if partial:
+                # a dict that names only the LAST column: the others fall back to the selecting Univariate, whose choice is
+                # taken from its contract (C05) - here a Gaussian; layout and labels must still follow the training order
+                dist = {labels[-1]: Bc}
+                I.summaries['copulas.univariate.selection.select_univariate'] = \
+                    lambda interp, args, kwargs: uni.new_model(interp, 'GaussianUnivariate')
 
             def body(c, I=I, labels=labels, const=const, dist=dist):
                 m = gm.fit_model(I, c, labels, dist if not isinstance(dist, dict) else dict(dist), constant=const)
